@@ -45,6 +45,7 @@ Proof.
   intros packed st m Hwf Hkb w E Hw.
   destruct (struct_step_psabi packed st m Hwf Hkb) as [p [_ [_ [_ H]]]]. exact (H w E Hw).
 Qed.
+Print Assumptions C08_bitfield_in_unit.
 
 (* the excluded construct really differs (so the exclusion is not gratuitous) *)
 Theorem C08_known_bad_is_real :
@@ -53,6 +54,7 @@ Theorem C08_known_bad_is_real :
   no_bad true {| ls_bits := 0; ls_align := 1 |} ms = false /\
   l_size (struct_layout true 1 ms) = 8 /\ psabi_members true 0 ms [0; 8] 38.
 Proof. exact known_bad_is_real. Qed.
+Print Assumptions C08_known_bad_is_real.
 
 (* every 6.7.2p2 multiset of type specifiers, in every order, interleaved with any other
    declaration specifiers, is accepted by the regenerated switch of declspec() with the C11 type *)
@@ -69,3 +71,4 @@ Example C08_nonvacuous :
                           {| m_size := 1; m_align := 1; m_bf := None; m_named := true |} ]
   = {| l_size := 9; l_align := 1; l_places := [ {| p_off := 0; p_bit := 0 |}; {| p_off := 0; p_bit := 0 |}; {| p_off := 8; p_bit := 0 |} ] |}.
 Proof. vm_compute. split; reflexivity. Qed.
+Print Assumptions C08_nonvacuous.
